@@ -357,4 +357,188 @@ Proof.
   exfalso. revert E. apply sp_der_den_ne0; try assumption; lia.
 Qed.
 
+(* ---------------------------------------------------------------------------------------- *)
+(** * evaluation: the accumulation loops are sums *)
+Notation sumr := (Sums.sumr F 0 (spadd K)).
+
+Lemma sp_fold_sum (g : nat -> F) : forall n a init,
+  fold_left (fun acc j => acc + g j) (seq a n) init = init + sumr a n g.
+Proof.
+  induction n as [|n IH]; intros a init; cbn [seq fold_left Sums.sumr]; [ring|]. rewrite IH. ring.
+Qed.
+
+Theorem sp_dot_loop_sum coeffs start n basis :
+  sp_dot_loop F K coeffs start n basis = sumr 0 n (fun j => nth (start + j) coeffs 0 * nth j basis 0).
+Proof. unfold sp_dot_loop. rewrite (sp_fold_sum (fun j => nth (start + j) coeffs 0 * nth j basis 0)). ring. Qed.
+
+Lemma sp_nth_map_seq (f : nat -> F) d : forall n a j, (j < n)%nat -> nth j (map f (seq a n)) d = f (a + j)%nat.
+Proof.
+  induction n as [|n IH]; intros a j Hj; [lia|]. cbn [seq map]. destruct j as [|j]; cbn [nth].
+  - f_equal. lia.
+  - rewrite IH by lia. f_equal. lia.
+Qed.
+
+(** which basis array the entry points use for der = 0 / 1 *)
+Definition sp_basis_of (der : nat) (knots : list F) (degree : nat) (x : F) (span : nat) : list F :=
+  match der with 0%nat => sp_A22 F K knots degree x span | _ => sp_ders_raw F K knots degree x span end.
+
+Lemma sp_nu_basis_sel_ok der knots degree x span : sp_sorted knots -> sp_span_ok knots span ->
+  (der <= 1)%nat -> (der <= degree)%nat -> (degree <= span)%nat -> (span + degree < length knots)%nat ->
+  sp_nu_basis_sel F K der knots degree x span = SpOk (sp_basis_of der knots degree x span).
+Proof.
+  intros Hs Hp H1 H2 Hd Hl. destruct der as [|[|der]]; [| |lia]; cbn [sp_nu_basis_sel sp_basis_of].
+  - apply sp_nu_basis_funs_ok; assumption.
+  - apply sp_nu_basis_funs_1st_der_ok; assumption.
+Qed.
+
+(** nu_eval_spline_1d_scalar: sum_j coeffs[span-p+j] * basis[j] *)
+Theorem sp_nu_eval_1d_scalar_spec knots degree coeffs x der s :
+  sp_sorted knots -> sp_nu_find_span F K knots degree x = SpOk s -> sp_span_ok knots s ->
+  (der <= 1)%nat -> (der <= degree)%nat -> (degree <= s)%nat -> (s + degree < length knots)%nat ->
+  (s < length coeffs)%nat ->
+  sp_nu_eval_1d_scalar F K x knots degree coeffs der
+  = SpOk (sumr 0 (S degree) (fun j => nth (s - degree + j) coeffs 0 * nth j (sp_basis_of der knots degree x s) 0)).
+Proof.
+  intros Hs E Hp H1 H2 Hd Hl Hc. unfold sp_nu_eval_1d_scalar. rewrite E. cbn [sp_bind].
+  change (match der with 0%nat => sp_nu_basis_funs F K knots degree x s
+          | 1%nat => sp_nu_basis_funs_1st_der F K knots degree x s | _ => SpArgErr end)
+    with (sp_nu_basis_sel F K der knots degree x s).
+  rewrite sp_nu_basis_sel_ok by assumption. cbn [sp_bind]. unfold sp_dot_checked.
+  destruct (Nat.leb_spec degree s); [|lia]. destruct (Nat.ltb_spec s (length coeffs)); [|lia]. cbn [andb].
+  rewrite sp_dot_loop_sum. reflexivity.
+Qed.
+
+(** the value of the spline on a half-open span is sum_j c_{s-p+j} N_{s-p+j,p}(x) *)
+Theorem sp_nu_eval_1d_coxdeboor knots degree coeffs x s :
+  sp_sorted knots -> sp_nu_find_span F K knots degree x = SpOk s -> sp_span_ok knots s ->
+  sp_kn F K knots s <= x -> ~ sp_kn F K knots (S s) <= x ->
+  (degree <= s)%nat -> (s + degree < length knots)%nat -> (s < length coeffs)%nat ->
+  sp_nu_eval_1d_scalar F K x knots degree coeffs 0
+  = SpOk (sumr 0 (S degree) (fun j => nth (s - degree + j) coeffs 0 * sp_N knots x degree (s - degree + j))).
+Proof.
+  intros Hs E Hp Hx1 Hx2 Hd Hl Hc.
+  rewrite (sp_nu_eval_1d_scalar_spec knots degree coeffs x 0 s) by (try assumption; lia).
+  f_equal. apply Sums.sumr_ext. intros j Hj. cbn [sp_basis_of].
+  rewrite sp_A22_eq_coxdeboor by assumption.
+  rewrite (sp_nth_map_seq (fun q => sp_N knots x degree (s - degree + q))) by lia. reflexivity.
+Qed.
+
+(* generic facts about the error monad *)
+Lemma sp_mapM_ok {A B : Type} (f : A -> sp_res B) (g : A -> B) l :
+  (forall a, In a l -> f a = SpOk (g a)) -> sp_mapM f l = SpOk (map g l).
+Proof.
+  induction l as [|a l IH]; intros H; cbn [sp_mapM map]; [reflexivity|].
+  rewrite (H a) by (left; reflexivity). cbn [sp_bind]. rewrite IH by (intros; apply H; right; assumption).
+  reflexivity.
+Qed.
+Lemma sp_mapM_ext {A B : Type} (f f' : A -> sp_res B) l :
+  (forall a, In a l -> f a = f' a) -> sp_mapM f l = sp_mapM f' l.
+Proof.
+  induction l as [|a l IH]; intros H; cbn [sp_mapM]; [reflexivity|].
+  rewrite (H a) by (left; reflexivity). rewrite IH by (intros; apply H; right; assumption). reflexivity.
+Qed.
+
+(** nu_eval_spline_1d_vector = the scalar entry point at every point (including which error) *)
+Theorem sp_nu_eval_1d_vector_eq_map knots degree coeffs der xs : (der <= 1)%nat ->
+  sp_nu_eval_1d_vector F K xs knots degree coeffs der
+  = sp_mapM (fun x => sp_nu_eval_1d_scalar F K x knots degree coeffs der) xs.
+Proof. intros H. destruct der as [|[|der]]; [reflexivity|reflexivity|lia]. Qed.
+
+(** the theCoeffs accumulation is the tensor-product sum *)
+Theorem sp_row_acc_sum row start2 deg2 basis2 :
+  sp_row_acc F K row start2 deg2 basis2 = sumr 0 (S deg2) (fun j => nth (start2 + j) row 0 * nth j basis2 0).
+Proof.
+  unfold sp_row_acc. rewrite (sp_fold_sum (fun j => nth (start2 + j) row 0 * nth j basis2 0)).
+  cbn [Sums.sumr]. rewrite Nat.add_0_r. reflexivity.
+Qed.
+
+Theorem sp_tensor_loop_sum coeffs start1 deg1 start2 deg2 basis1 basis2 :
+  sp_tensor_loop F K coeffs start1 deg1 start2 deg2 basis1 basis2
+  = sumr 0 (S deg1) (fun i => sumr 0 (S deg2) (fun j =>
+      nth (start2 + j) (nth (start1 + i) coeffs []) 0 * nth j basis2 0) * nth i basis1 0).
+Proof.
+  unfold sp_tensor_loop.
+  rewrite (sp_fold_sum (fun i => sp_row_acc F K (nth (start1 + i) coeffs []) start2 deg2 basis2 * nth i basis1 0)).
+  replace (0 + sumr 0 (S deg1) (fun i => sp_row_acc F K (nth (start1 + i) coeffs []) start2 deg2 basis2 * nth i basis1 0))
+    with (sumr 0 (S deg1) (fun i => sp_row_acc F K (nth (start1 + i) coeffs []) start2 deg2 basis2 * nth i basis1 0)) by ring.
+  apply Sums.sumr_ext. intros i _. rewrite sp_row_acc_sum. reflexivity.
+Qed.
+
+(** nu_eval_spline_2d_scalar *)
+Theorem sp_nu_eval_2d_scalar_spec k1 d1 k2 d2 coeffs x y e1 e2 s1 s2 :
+  sp_sorted k1 -> sp_sorted k2 ->
+  sp_nu_find_span F K k1 d1 x = SpOk s1 -> sp_nu_find_span F K k2 d2 y = SpOk s2 ->
+  sp_span_ok k1 s1 -> sp_span_ok k2 s2 ->
+  (e1 <= 1)%nat -> (e1 <= d1)%nat -> (e2 <= 1)%nat -> (e2 <= d2)%nat ->
+  (d1 <= s1)%nat -> (s1 + d1 < length k1)%nat -> (d2 <= s2)%nat -> (s2 + d2 < length k2)%nat ->
+  (s1 < length coeffs)%nat -> (forall row, In row coeffs -> (s2 < length row)%nat) ->
+  sp_nu_eval_2d_scalar F K x y k1 d1 k2 d2 coeffs e1 e2
+  = SpOk (sumr 0 (S d1) (fun i => sumr 0 (S d2) (fun j =>
+      nth (s2 - d2 + j) (nth (s1 - d1 + i) coeffs []) 0 * nth j (sp_basis_of e2 k2 d2 y s2) 0)
+      * nth i (sp_basis_of e1 k1 d1 x s1) 0)).
+Proof.
+  intros Hs1 Hs2 E1 E2 Hp1 Hp2 He1 He1' He2 He2' Hd1 Hl1 Hd2 Hl2 Hc1 Hc2.
+  unfold sp_nu_eval_2d_scalar. rewrite E1, E2. cbn [sp_bind].
+  rewrite !sp_nu_basis_sel_ok by assumption. cbn [sp_bind]. unfold sp_tensor_checked.
+  destruct (Nat.leb_spec d1 s1); [|lia]. destruct (Nat.ltb_spec s1 (length coeffs)); [|lia].
+  destruct (Nat.leb_spec d2 s2); [|lia]. cbn [andb].
+  replace (forallb (fun row => (s2 <? length row)%nat) coeffs) with true.
+  - rewrite sp_tensor_loop_sum. reflexivity.
+  - symmetry. apply forallb_forall. intros row Hr. apply Nat.ltb_lt. apply Hc2, Hr.
+Qed.
+
+(** nu_eval_spline_2d_cross = the scalar entry point on the grid X x Y *)
+Theorem sp_nu_eval_2d_cross_eq_grid X Y k1 d1 k2 d2 coeffs e1 e2 (f : F -> F -> F) :
+  (e1 <= 1)%nat -> (e2 <= 1)%nat -> Y <> [] ->
+  (forall x y, In x X -> In y Y -> sp_nu_eval_2d_scalar F K x y k1 d1 k2 d2 coeffs e1 e2 = SpOk (f x y)) ->
+  sp_nu_eval_2d_cross F K X Y k1 d1 k2 d2 coeffs e1 e2 = SpOk (map (fun x => map (f x) Y) X).
+Proof.
+  intros He1 He2 HY H.
+  assert (E : sp_nu_eval_2d_cross F K X Y k1 d1 k2 d2 coeffs e1 e2 =
+    sp_mapM (fun x =>
+      sp_bind (sp_nu_find_span F K k1 d1 x) (fun span1 =>
+      sp_bind (sp_nu_basis_sel F K e1 k1 d1 x span1) (fun basis1 =>
+      sp_mapM (fun y =>
+        sp_bind (sp_nu_find_span F K k2 d2 y) (fun span2 =>
+        sp_bind (sp_nu_basis_sel F K e2 k2 d2 y span2) (fun basis2 =>
+        sp_tensor_checked F K coeffs span1 d1 span2 d2 basis1 basis2))) Y))) X).
+  { destruct e1 as [|[|e1]]; [| |lia]; (destruct e2 as [|[|e2]]; [reflexivity|reflexivity|lia]). }
+  rewrite E. apply sp_mapM_ok. intros x Hx.
+  destruct Y as [|y0 Y']; [contradiction|].
+  pose proof (H x y0 Hx (or_introl eq_refl)) as H0. unfold sp_nu_eval_2d_scalar in H0.
+  destruct (sp_nu_find_span F K k1 d1 x) as [s1| | | |] eqn:Es1; cbn [sp_bind] in H0; try discriminate.
+  cbn [sp_bind].
+  destruct (sp_nu_find_span F K k2 d2 y0) as [s20| | | |]; cbn [sp_bind] in H0; try discriminate.
+  destruct (sp_nu_basis_sel F K e1 k1 d1 x s1) as [b1| | | |] eqn:Eb1; cbn [sp_bind] in H0; try discriminate.
+  cbn [sp_bind]. apply sp_mapM_ok. intros y Hy.
+  pose proof (H x y Hx Hy) as H1. unfold sp_nu_eval_2d_scalar in H1. rewrite Es1 in H1. cbn [sp_bind] in H1.
+  destruct (sp_nu_find_span F K k2 d2 y) as [s2| | | |]; cbn [sp_bind] in H1; try discriminate.
+  rewrite Eb1 in H1. cbn [sp_bind] in H1. cbn [sp_bind]. exact H1.
+Qed.
+
+Lemma sp_zipM_ok {B : Type} (f : F -> F -> sp_res B) (g : F -> F -> B) : forall xs ys,
+  length xs = length ys ->
+  (forall x y, In (x, y) (combine xs ys) -> f x y = SpOk (g x y)) ->
+  sp_zipM F f xs ys = SpOk (map (fun p => g (fst p) (snd p)) (combine xs ys)).
+Proof.
+  induction xs as [|x xs IH]; intros ys Hl H; cbn [sp_zipM combine map]; [reflexivity|].
+  destruct ys as [|y ys]; [discriminate|]. cbn [combine map fst snd].
+  rewrite (H x y) by (left; reflexivity). cbn [sp_bind].
+  rewrite IH; [reflexivity|cbn in Hl; lia|]. intros; apply H; right; assumption.
+Qed.
+
+(** nu_eval_spline_2d_vector = the scalar entry point at the pairs (x[i], y[i]) *)
+Theorem sp_nu_eval_2d_vector_eq_zip xs ys k1 d1 k2 d2 coeffs e1 e2 (f : F -> F -> F) :
+  (e1 <= 1)%nat -> (e2 <= 1)%nat -> length xs = length ys ->
+  (forall x y, In (x, y) (combine xs ys) -> sp_nu_eval_2d_scalar F K x y k1 d1 k2 d2 coeffs e1 e2 = SpOk (f x y)) ->
+  sp_nu_eval_2d_vector F K xs ys k1 d1 k2 d2 coeffs e1 e2
+  = SpOk (map (fun p => f (fst p) (snd p)) (combine xs ys)).
+Proof.
+  intros He1 He2 Hl H.
+  assert (E : sp_nu_eval_2d_vector F K xs ys k1 d1 k2 d2 coeffs e1 e2 =
+    sp_zipM F (fun x y => sp_nu_eval_2d_scalar F K x y k1 d1 k2 d2 coeffs e1 e2) xs ys).
+  { destruct e1 as [|[|e1]]; [| |lia]; (destruct e2 as [|[|e2]]; [reflexivity|reflexivity|lia]). }
+  rewrite E. apply sp_zipM_ok; assumption.
+Qed.
+
 End Theory.
